@@ -48,6 +48,10 @@ type Config struct {
 	// MaxStates caps the seen set (0 = unlimited); hitting it marks the run
 	// non-exhaustive.
 	MaxStates int
+	// Drop says that the successor reached by ev with observation obs need not be
+	// kept (it is checked and counted like every other): a fault variant whose
+	// fault never fired reaches exactly the state of the plain event.
+	Drop func(ev, obs string) bool
 }
 
 type node struct {
@@ -67,6 +71,10 @@ type Stats struct {
 	Samples     [][]string
 	LevelSizes  []int
 	Outcomes    int
+	// ByEvent counts transitions per (event kind, observation class): the
+	// vacuity guard (an event kind whose every transition is refused, a fault
+	// that never fires, show up here)
+	ByEvent map[string]int
 }
 
 // Explore runs the search.
@@ -78,6 +86,7 @@ func Explore(cfg Config) Stats {
 	var seenMu sync.Mutex
 	seen := map[[16]byte]bool{}
 	outcomes := map[[16]byte]bool{}
+	byEvent := map[string]int{}
 	st := Stats{Completed: true}
 	hash := func(s string) [16]byte {
 		h := sha256.Sum256([]byte(s))
@@ -86,6 +95,15 @@ func Explore(cfg Config) Stats {
 		return k
 	}
 
+	// de-duplication: a state is (canonical key, deviations spent) when a deviation
+	// budget is in force - a visit that spent less budget may go where a visit
+	// that spent more may not, so the two are not merged
+	dedupKey := func(key string, cost int) [16]byte {
+		if cfg.MaxCost > 0 {
+			return hash(fmt.Sprintf("%s\x00cost=%d", key, cost))
+		}
+		return hash(key)
+	}
 	// initial state
 	root := &node{}
 	func() {
@@ -94,7 +112,7 @@ func Explore(cfg Config) Stats {
 		for _, v := range inst.Check(nil) {
 			rep.Violation(v)
 		}
-		seen[hash(inst.Key())] = true
+		seen[dedupKey(inst.Key(), 0)] = true
 		root.enabled = inst.Enabled()
 	}()
 	frontier := []*node{root}
@@ -107,9 +125,13 @@ func Explore(cfg Config) Stats {
 			n  *node
 			ev string
 		}
+		type cand struct {
+			n *node
+			k [16]byte
+		}
 		jobs := make(chan job, 1024)
-		var nextMu sync.Mutex
-		var next []*node
+		var candMu sync.Mutex
+		var cands []cand
 		var wg sync.WaitGroup
 		var aborted int32
 		for w := 0; w < cfg.Workers; w++ {
@@ -129,24 +151,21 @@ func Explore(cfg Config) Stats {
 					if nn == nil {
 						continue
 					}
-					k := hash(key)
+					k := dedupKey(key, nn.cost)
 					seenMu.Lock()
 					outcomes[hash(obsKey)] = true
-					dup := seen[k]
-					if !dup || cfg.Stateless {
-						seen[k] = true
-					}
-					full := cfg.MaxStates > 0 && len(seen) >= cfg.MaxStates
+					byEvent[classify(obsKey)]++
+					dup := seen[k] && !cfg.Stateless // seen holds earlier levels only while a level runs
 					seenMu.Unlock()
-					if full {
-						atomic.StoreInt32(&aborted, 1)
-					}
-					if dup && !cfg.Stateless {
+					if dup {
 						continue
 					}
-					nextMu.Lock()
-					next = append(next, nn)
-					nextMu.Unlock()
+					if cfg.Drop != nil && cfg.Drop(j.ev, nn.obs[len(nn.obs)-1]) {
+						continue
+					}
+					candMu.Lock()
+					cands = append(cands, cand{nn, k})
+					candMu.Unlock()
 				}
 			}()
 		}
@@ -170,17 +189,43 @@ func Explore(cfg Config) Stats {
 			break
 		}
 		st.MaxDepth = depth
-		// deterministic order of the next frontier (shortest / simplest first)
-		sortNodes(next)
+		// the representative of a new state is chosen deterministically: fewest
+		// deviations, then the smallest history (worker timing plays no part)
+		all := make([]*node, len(cands))
+		byNode := make(map[*node][16]byte, len(cands))
+		for i, c := range cands {
+			all[i] = c.n
+			byNode[c.n] = c.k
+		}
+		sortNodes(all)
+		var next []*node
+		full := false
+		for _, n := range all {
+			k := byNode[n]
+			if seen[k] && !cfg.Stateless {
+				continue
+			}
+			seen[k] = true
+			next = append(next, n)
+			if cfg.MaxStates > 0 && len(seen) >= cfg.MaxStates {
+				full = true
+				break
+			}
+		}
 		frontier = next
 		st.LevelSizes = append(st.LevelSizes, len(next))
 		if len(next) > 0 && len(st.Samples) < 5 {
 			st.Samples = append(st.Samples, append([]string(nil), next[len(next)/2].hist...))
 		}
+		if full {
+			st.Completed = false
+			break
+		}
 	}
 	st.States = len(seen)
 	st.Transitions = int(transitions)
 	st.Outcomes = len(outcomes)
+	st.ByEvent = byEvent
 	return st
 }
 
@@ -188,7 +233,7 @@ func sortNodes(ns []*node) {
 	// simple insertion-friendly sort by joined history
 	keys := make([]string, len(ns))
 	for i, n := range ns {
-		keys[i] = strings.Join(n.hist, "\x00")
+		keys[i] = fmt.Sprintf("%04d\x00", n.cost) + strings.Join(n.hist, "\x00")
 	}
 	idx := make([]int, len(ns))
 	for i := range idx {
@@ -255,6 +300,28 @@ func setHorizon(inst Instance, n int) {
 	}
 }
 
+// classify maps "ev=>observation" to "kind => class": the event without its
+// argument (recv:a1 -> recv, fail2/recv:a1 -> fail2/recv) and the first word of
+// the observation.
+func classify(obsKey string) string {
+	i := strings.Index(obsKey, "=>")
+	if i < 0 {
+		return obsKey
+	}
+	ev, o := obsKey[:i], obsKey[i+2:]
+	if j := strings.IndexByte(ev, ':'); j >= 0 {
+		ev = ev[:j]
+	}
+	o = strings.TrimSpace(o)
+	if j := strings.IndexAny(o, " :("); j > 0 {
+		o = o[:j]
+	}
+	if len(o) > 24 {
+		o = o[:24]
+	}
+	return ev + " => " + o
+}
+
 func firstLine(s string) string {
 	if i := strings.IndexByte(s, '\n'); i >= 0 {
 		s = s[:i]
@@ -290,6 +357,7 @@ func (s Stats) Fill(rep *core.Report, prefix string) {
 	rep.Set(prefix+"level_sizes", s.LevelSizes)
 	rep.Set(prefix+"distinct_outcomes", s.Outcomes)
 	rep.Set(prefix+"completed", s.Completed)
+	rep.Set(prefix+"transitions_by_event_and_outcome", s.ByEvent)
 	for _, h := range s.Samples {
 		rep.Sample(map[string]interface{}{"engine": prefix, "history": h})
 	}
